@@ -73,6 +73,10 @@ pub fn run_case(line: &str) -> String {
         let mut out: Vec<u8> = vec![];
         match f {
             "fa_to" => fasta::write_to(&mut out, &arg(a[0])?, &arg(a[1])?).unwrap(),
+            "fa_seq" => {
+                fasta::write_head(&mut out, &arg(a[0])?).unwrap();
+                fasta::write_seq(&mut out, &arg(a[1])?).unwrap()
+            }
             "fa_parts" => {
                 let d = arg(a[1]);
                 fasta::write_parts(&mut out, &arg(a[0])?, d.as_deref(), &arg(a[2])?).unwrap()
